@@ -297,6 +297,13 @@ func c15Exhaustive(c *Ctx) {
 						}
 						k.Count("continued_on_rebuilt", 1)
 					}
+					if d > 1 && i > 0 && i == (code/3)%d {
+						// one intermediate observation: what it leaves behind must not hurt later
+						if !observeTrie(k, t, m, universe, fmt.Sprintf("before step %d", i)) {
+							return
+						}
+						k.Count("intermediate_observations", 1)
+					}
 					before := m.Canon()
 					if !applyOp(k, t, m, o, fmt.Sprintf("step %d", i)) {
 						return
@@ -342,6 +349,8 @@ func c15Random(c *Ctx) {
 			t2nd, m2nd := trie.New(), newSetModel()
 			var hist []trieOp
 			k.Input("history", func() string { return opsString(hist) })
+			obsEvery := pick(r, []int{1, 1, 2, 4})
+			k.Input("observe_every", obsEvery)
 			var pool []string
 			for step := 0; step < 40; step++ {
 				var s string
@@ -404,6 +413,12 @@ func c15Random(c *Ctx) {
 						}
 					}
 					probes = append(probes, x+string(alpha[r.IntN(len(alpha))]), x+"a")
+				}
+				// Observation schedule: every step, or only some steps (state kept
+				// between observations must survive unobserved updates).
+				if obsEvery > 1 && r.IntN(obsEvery) != 0 && step != 39 {
+					k.Count("unobserved_steps", 1)
+					continue
 				}
 				if !observeTrie(k, t, m, probes, fmt.Sprintf("after step %d", step)) {
 					return
